@@ -738,6 +738,55 @@ theorem resume_equals_never_disconnected (cfg : Forkable.Config) (hnew : cfg.mat
   rw [run_append, h2]
   exact hrun
 
+/-- **End to end for the hub's own configuration, hypotheses on the inputs only**: a hub forkable started empty
+    (hold-until-LIB) and fed any history `h1` of blocks of one consistent block tree; a New cursor whose block and LIB
+    the hub retains on its chain; any later history `h2`. The hub serves the cursor, and the burst followed by
+    everything the hub delivers afterwards is accepted by the consumer that stood at the cursor, which ends on the
+    hub's chain and LIB: resuming equals never having disconnected. -/
+theorem resume_end_to_end_hub (cfg : Forkable.Config) (hroot : cfg.root = none) (hhold : cfg.hold = true)
+    (hnew : cfg.matches .new = true) (hundo : cfg.matches .undo = true) (hirr : cfg.matches .irreversible = true)
+    (U : Id → Option Blk) (hU : UOK U)
+    (h1 : List Blk) (hin1 : ∀ b ∈ h1, U b.id = some b) (hL1 : Props.C01.LibHistOK cfg (Forkable.init cfg) h1)
+    (h : Blk) (seg : List Entry)
+    (hs : headSegment (runHistory cfg (Forkable.init cfg) h1).1 = some (h, seg))
+    (c : Cur) (hu : isUndo c = false)
+    (el : Entry) (hel : el ∈ seg) (helid : el.blk.id = c.lib.id) (helnum : el.blk.num = c.lib.num)
+    (eb : Entry) (heb : eb ∈ seg) (hebid : eb.blk.id = c.block.id)
+    (hcl : c.lib.num ≤ (runHistory cfg (Forkable.init cfg) h1).1.db.libRef.num)
+    (h2 : List Blk) (hin2 : ∀ b ∈ h2, U b.id = some b)
+    (hL2 : Props.C01.LibHistOK cfg (runHistory cfg (Forkable.init cfg) h1).1 h2) :
+    ∃ burst P', blocksFromCursor (runHistory cfg (Forkable.init cfg) h1).1 1 c = some burst ∧
+      (⟨c.lib.id, (seg.filter (fun e => decide (c.lib.num < e.blk.num) && decide (e.blk.num ≤ c.block.num))).map (·.blk.id)⟩ : CS).run
+          (burst ++ (runHistory cfg (runHistory cfg (Forkable.init cfg) h1).1 h2).2) =
+        some ⟨(runHistory cfg (runHistory cfg (Forkable.init cfg) h1).1 h2).1.db.libRef.id, P'⟩ := by
+  have hlast : (runHistory cfg (Forkable.init cfg) h1).1.lastSent = some h := by
+    unfold headSegment at hs
+    split at hs
+    · cases hs
+    · cases hl : (runHistory cfg (Forkable.init cfg) h1).1.lastSent with
+      | none => rw [hl] at hs; cases hs
+      | some l =>
+        rw [hl] at hs
+        simp only at hs
+        cases hc : (runHistory cfg (Forkable.init cfg) h1).1.db.completeSegment l.ref with
+        | mk o rr =>
+          rw [hc] at hs
+          cases o with
+          | none => cases hs
+          | some sg =>
+            cases rr with
+            | false => cases hs
+            | true =>
+              simp only [Option.some.injEq, Prod.mk.injEq] at hs
+              rw [hs.1]
+  rcases Props.C01.history_all_invariants_discovery cfg hhold hnew hundo hirr U hU h1 (Forkable.init cfg)
+      (preInv_init U cfg hroot) hin1 hL1 with hPre | ⟨P, F, hI, hJ, hH⟩
+  · rw [hPre.noLast] at hlast; cases hlast
+  · obtain ⟨burst, P', hb, hrun, _⟩ := resume_equals_never_disconnected cfg hnew hundo hirr U hU F _ P hI hJ h seg hs
+      (fun e he => Props.C01.head_num_of_invariants U hU F _ hJ hH h hlast e he)
+      c hu el hel helid helnum eb heb hebid hcl h2 hin2 hL2
+    exact ⟨burst, P', hb, hrun⟩
+
 end StateLevel
 
 /-! Non-vacuity of `resume_new_cursor_on_hub_chain`: a hub (known LIB `r`, ten final blocks kept) that has received
